@@ -348,3 +348,115 @@ func TestVfC14MassWake(t *testing.T) {
 	_ = errors.New
 	_ = net.IPv4zero
 }
+
+// TestVfC14Saturated: the probe's deadline must hold while the shared transport is saturated by other exchanges whose
+// replies the server withholds - all stream credit of a QUIC connection used up, a full pipeline, every pooled
+// connection busy. "Accepts and stays silent" is then true for the blockers, and the probe must not inherit their wait.
+func TestVfC14Saturated(t *testing.T) {
+	st := vfkit.Stats("TestVfC14Saturated", "b in 1..24 blocker exchanges (4 s deadlines, replies withheld by the server) saturate one upstream of every kind; quic / h3 servers grant 1, 2, 4 or unlimited concurrent streams; then a probe with a 100-400 ms deadline; oracle: the probe returns by its deadline + 1.2 s, blockers return by theirs + 1.2 s, a later exchange after the release is answered; non-trivial = blockers >= stream credit (quic, h3) or b >= 2")
+	defer vfkit.Flush()
+	_, leaf := vfTLSMaterial()
+	rapid.Check(t, func(t *rapid.T) {
+		kind := rapid.SampledFrom(vfAllKinds).Draw(t, "kind")
+		b := rapid.IntRange(1, 24).Draw(t, "blockers")
+		credit := int64(0)
+		if kind == "quic" || kind == "h3" {
+			credit = rapid.SampledFrom([]int64{1, 2, 4, 0}).Draw(t, "streamCredit")
+		}
+		deadline := time.Duration(rapid.IntRange(100, 400).Draw(t, "deadlineMs")) * time.Millisecond
+		gate := make(chan struct{})
+		var arrived atomic.Int32
+		var released atomic.Bool
+		srv, err := vfkit.StartUpstreamWith(kind, "s", "127.0.0.1", 0, vfkit.ServerTLS(leaf), func(q *vfkit.UpQuery) vfkit.UpAction {
+			if released.Load() || (q.Msg.Err == nil && len(q.Msg.Q) == 1 && strings.HasPrefix(string(q.Msg.Q[0].Name[0]), "warm")) {
+				return vfkit.UpAction{Reply: vfOKReply(q)}
+			}
+			arrived.Add(1)
+			return vfkit.UpAction{Reply: vfOKReply(q), Gate: gate}
+		}, vfkit.UpOpts{QUICMaxStreams: credit})
+		if err != nil {
+			t.Fatalf("fake server: %v", err)
+		}
+		defer srv.Close()
+		u := vfNewUpstream(t, kind, srv.Port, 0)
+		defer func() {
+			if !vfClose(u) {
+				t.Fatalf("%s upstream: Close did not return within 3 s", kind)
+			}
+		}()
+		ctx0, c0 := context.WithTimeout(context.Background(), 3*time.Second)
+		if ok, err, _ := vfExchange(u, ctx0, 1, "warm.c14"); !ok {
+			c0()
+			t.Fatalf("%s: warm-up failed: %v", kind, err)
+		}
+		c0()
+		const blockerDeadline = 4 * time.Second
+		type res struct {
+			took time.Duration
+			ok   bool
+			err  error
+		}
+		bres := make(chan res, b)
+		for i := 0; i < b; i++ {
+			go func(i int) {
+				ctx, cancel := context.WithTimeout(context.Background(), blockerDeadline)
+				defer cancel()
+				ok, err, took := vfExchange(u, ctx, uint16(100+i), fmt.Sprintf("b%d.c14", i))
+				bres <- res{took, ok, err}
+			}(i)
+		}
+		// let the blockers reach the server (those beyond the stream credit cannot)
+		want := int32(b)
+		if credit > 0 && int64(b) > credit {
+			want = int32(credit)
+		}
+		wait := time.Now().Add(800 * time.Millisecond)
+		for arrived.Load() < want && time.Now().Before(wait) {
+			time.Sleep(time.Millisecond)
+		}
+		ctx, cancel := context.WithTimeout(context.Background(), deadline)
+		ok, exErr, took := vfExchange(u, ctx, 7, "probe.c14")
+		cancel()
+		if took > deadline+1200*time.Millisecond {
+			t.Fatalf("%s upstream saturated by %d unanswered exchanges (server stream credit %d): the probe with a %v deadline returned after %v (ok=%v err=%v)", kind, b, credit, deadline, took, ok, exErr)
+		}
+		if !ok && exErr == nil {
+			t.Fatalf("%s: neither reply nor error for the probe", kind)
+		}
+		released.Store(true)
+		close(gate)
+		for i := 0; i < b; i++ {
+			select {
+			case r := <-bres:
+				if r.took > blockerDeadline+1200*time.Millisecond {
+					t.Fatalf("%s: a blocker with a %v deadline returned after %v", kind, blockerDeadline, r.took)
+				}
+			case <-time.After(blockerDeadline + 3*time.Second):
+				t.Fatalf("%s: %d of %d blocker exchanges never returned", kind, b-i, b)
+			}
+		}
+		// the transport is usable again once the server has handed the stream credit back (a MAX_STREAMS frame that
+		// follows the closed streams after a round trip): allow 2 s for that, then it counts as wedged
+		var ok2 bool
+		var err2 error
+		for until := time.Now().Add(2 * time.Second); ; {
+			ctx2, c2 := context.WithTimeout(context.Background(), 3*time.Second)
+			ok2, err2, _ = vfExchange(u, ctx2, 9, "after.c14")
+			c2()
+			if ok2 || time.Now().After(until) {
+				break
+			}
+			time.Sleep(20 * time.Millisecond)
+		}
+		if !ok2 {
+			t.Fatalf("%s: no exchange succeeded within 2 s after the saturation was released (%d blockers, credit %d): %v", kind, b, credit, err2)
+		}
+		nontrivial := b >= 2
+		if credit > 0 {
+			nontrivial = int64(b) >= credit
+		}
+		st.Case(vfkit.Fingerprint(kind, b, credit, deadline), nontrivial, []string{"kind=" + kind, fmt.Sprintf("credit=%d", credit)}, func() any {
+			return map[string]any{"kind": kind, "blockers": b, "credit": credit, "deadline_ms": deadline.Milliseconds(), "probe_took_ms": took.Milliseconds(), "probe_ok": ok}
+		})
+	})
+}
